@@ -666,6 +666,8 @@ def domain(u, schemes=('http', 'https', 'ipp', 'ipps')):
     """absolute target URIs scheme://[userinfo@]host[:port][/path][?query] (C13/C14 quantifier)"""
     nodelim = z3.Star(z3.Union(z3.Range('!', '"'), z3.Range('$', '.'), z3.Range('0', '9'), z3.Range(';', ';'), z3.Range('=', '='),
                                z3.Range('A', 'Z'), z3.Range('_', '_'), z3.Range('a', 'z'), z3.Range('~', '~')))
+    # user-info: the http parser takes everything up to the LAST '@' (so ':' and a literal '@' may occur inside)
+    uire = z3.Star(z3.Union(z3.Range('!', '"'), z3.Range('$', '.'), z3.Range('0', ';'), z3.Range('=', '='), z3.Range('@', 'Z'), z3.Range('_', '_'), z3.Range('a', 'z'), z3.Range('~', '~')))
     alnum = z3.Union(z3.Range('0', '9'), z3.Range('A', 'Z'), z3.Range('a', 'z'))
     regname = z3.Concat(alnum, z3.Star(z3.Union(alnum, z3.Range('-', '.'))))
     ip6 = z3.Concat(z3.Re('['), z3.Plus(z3.Union(z3.Range('0', '9'), z3.Range('a', 'f'), z3.Range('A', 'F'), z3.Range(':', ':'), z3.Range('.', '.'))), z3.Re(']'))
@@ -674,7 +676,7 @@ def domain(u, schemes=('http', 'https', 'ipp', 'ipps')):
     queryre = z3.Star(z3.Union(z3.Range('!', '"'), z3.Range('$', '~')))
     c = [u.scheme_p, z3.Or(*[u.scheme == sv(s) for s in schemes]), u.auth_p,
          in_re(u.host, hostre),
-         z3.Implies(u.ui_p, in_re(u.ui, nodelim)), z3.Implies(z3.Not(u.ui_p), u.ui == sv('')),
+         z3.Implies(u.ui_p, in_re(u.ui, uire)), z3.Implies(z3.Not(u.ui_p), u.ui == sv('')),
          z3.Implies(u.port_p, z3.And(in_re(u.port_zeros, z3.Star(z3.Re('0'))), z3.Length(u.port_zeros) <= 2, u.port_n >= 1, u.port_n <= 65535)),
          z3.Implies(z3.Not(u.port_p), z3.And(u.port_zeros == sv(''), u.port_n == 0)),
          in_re(u.rawpath, pathre),
@@ -770,7 +772,7 @@ def corpus(seed):
     import random
     rnd = random.Random(seed)
     schemes = ['ipp', 'ipps', 'http', 'https']
-    uis = ['', 'u@', 'user:pw@', 'a%40b:p%3Aw@', ':@']
+    uis = ['', 'u@', 'user:pw@', 'a%40b:p%3Aw@', ':@', 'alice@example.org:s3cr3t@']
     hosts = ['h', 'example.com', 'printer-1.local', '192.168.0.7', '[::1]', '[fe80::1]', 'xn--bcher-kva.de', 'H']
     ports = ['', ':631', ':443', ':80', ':1', ':65535', ':0631', ':8631']
     paths = ['', '/', '/p', '/printers/test-printer', '/a/b/', '/%7Euser/x', '/ipp/print;v=1', '//x']
@@ -932,6 +934,47 @@ def constructor_dataflow(mir):
     return True, 'canonicalize_uri(&uri).to_string() flows into IppValue::Uri for printer-uri'
 
 
+SCREEN_EXTRA = ['ipp://alice@example.org:s3cr3t@printer.local:631/ipp/print', 'ipp://[::1]/ipp/print', 'ipp://u@[fe80::1]/p?x=1', 'ipp://PRINTER.Example.COM/Printers/A',
+                'ipp://User:Pw@Host.Example:631/P?Q=1', 'ipps://[2001:db8::7]:8631/ipp/print', 'http://a@b@h/p', 'ipp://h:00631/p']
+
+
+def native_screen(prop, seed, out, stats):
+    binp = os.path.join(WORK, 'otarget', 'release', 'urioracle')
+    if not os.path.exists(binp):
+        return
+    res = oracle(binp, corpus(seed) + SCREEN_EXTRA)
+    n = 0
+    for o in res:
+        if not o.get('ok'):
+            continue
+        u = o['uri']
+        if u['scheme'] not in ('http', 'https', 'ipp', 'ipps') or u['authority'] is None:
+            continue
+        rec = concrete_record(o)
+        if rec['port_p'] and (rec['port_txt'] == '' or rec['port_n'] == 0):
+            continue
+        n += 1
+        if prop == 'C14':
+            a = u['authority'] + ('' if u['port_u16'] is not None else ':631')
+            pq = u['pq'] or ''
+            exp = {'ipp': 'http://' + a + pq, 'ipps': 'https://' + a + pq}.get(u['scheme'], u['to_string'])
+            if o['transport'] != exp:
+                role = 'ipps-default-port' if (u['scheme'] == 'ipps' and o['transport'].replace(':443', ':631', 1) == exp) else 'native-screen'
+                if role == 'native-screen' or not any(v['role'] == role for v in out['violations']):
+                    out['violations'].append({'role': role, 'uri': o['input'], 'what': 'transport URL for %s is %s, expected %s' % (o['input'], o['transport'], exp),
+                                              'replay_cmd': 'echo %r | %s' % (o['input'], binp)})
+        else:
+            c, c2 = o['canon'], o['canon2']
+            bad = (c['scheme'] not in ('ipp', 'ipps') or '@' in (c['authority'] or '') or c['query'] is not None or '?' in c['to_string'] or c['host'] != u['host']
+                   or c['port_u16'] != u['port_u16'] or c['path'] != u['path'] or c2['to_string'] != c['to_string'])
+            if bad:
+                out['violations'].append({'role': 'native-screen', 'uri': o['input'], 'what': 'canonicalize_uri(%s) = %s' % (o['input'], c['to_string']),
+                                          'replay_cmd': 'echo %r | %s' % (o['input'], binp)})
+        if len([v for v in out['violations'] if v['role'] == 'native-screen']) >= 3:
+            break
+    stats['native_screen_uris'] = n
+
+
 def known_list():
     p = os.path.join(ROOT, 'known_findings.json')
     return json.load(open(p)) if os.path.exists(p) else {'known': []}
@@ -957,8 +1000,17 @@ def main(prop, tier, seed):
             run_c14(q, u, dom, transport, closures, mir, binp, out, samples, stats)
         else:
             run_c13(q, u, dom, canon, closures, mir, binp, out, samples, stats)
+        if not stats.get('reachable_paths'):
+            raise Inconclusive('no MIR path is reachable for a URI of the domain: every verdict would be vacuous')
     except Inconclusive as e:
         out['inconclusive'] = str(e)
+        # the translator gave up (or a model did not replay). That is never green; but if the REAL functions visibly break the
+        # property on the corpus, say so: a concrete, replayable mismatch is a violation whatever the translator could read.
+        try:
+            if not out['violations']:
+                native_screen(prop, seed, out, stats)
+        except Exception as e2:  # screening is a bonus, never a reason to change the verdict
+            stats['native_screen_error'] = str(e2)[:200]
     wall = time.time() - t0
     known = known_list()
     viol = []
@@ -993,8 +1045,9 @@ def main(prop, tier, seed):
             'rule': 'one evaluation = one SMT query (MIR path x obligation); non-trivial = decided sat/unsat by z3 with cvc5 not contradicting',
             'samples': samples[:12] + q.log[:12],
             'functions_encoded': stats.get('functions'), 'callees_axiomatised': stats.get('callees'),
-            'mir_paths': stats.get('paths'), 'queries_discharged': len([l for l in q.log if l['z3'] == 'unsat']),
-            'queries_sat': len([l for l in q.log if l['z3'] == 'sat']), 'z3_s': round(q.z3_s, 2), 'cvc5_s': round(q.cvc5_s, 2),
+            'mir_paths': stats.get('paths'), 'reachable_paths_witnessed': stats.get('reachable_paths'), 'queries_discharged': len([l for l in q.log if l['z3'] == 'unsat']),
+            'queries_sat': len([l for l in q.log if l['z3'] == 'sat' and 'vacuity witness' not in l['query']]),
+            'vacuity_witnesses_sat': len([l for l in q.log if l['z3'] == 'sat' and 'vacuity witness' in l['query']]), 'z3_s': round(q.z3_s, 2), 'cvc5_s': round(q.cvc5_s, 2),
             'cvc5_verdicts': dict((v, len([1 for l in q.log if l['cvc5'] == v])) for v in set(l['cvc5'] for l in q.log)),
             'axiom_validation': {'corpus_uris_checked': stats.get('axiom_corpus_uris'), 'disagreements': 0 if not out['inconclusive'] else None},
             'mir_dump_s': stats.get('mir_dump_s'), 'exhaustive': False,
@@ -1039,6 +1092,9 @@ def run_c14(q, u, dom, transport, closures, mir, binp, out, samples, stats):
             continue
         if not isinstance(val, Str):
             raise Inconclusive('result is not a string')
+        # vacuity witness: the path must be reachable for some URI of the domain, otherwise `unsat` below says nothing
+        w, _ = q.check(label + ' reachable (vacuity witness)', dom + cond, z3.BoolVal(True))
+        stats['reachable_paths'] = stats.get('reachable_paths', 0) + (1 if w == 'sat' else 0)
         v, m = q.check(label, dom + cond, val.e != expected)
         samples.append({'path': i, 'calls': trace[:14], 'verdict': v})
         if v == 'sat':
@@ -1070,8 +1126,19 @@ def run_c14(q, u, dom, transport, closures, mir, binp, out, samples, stats):
 def run_c13(q, u, dom, canon, closures, mir, binp, out, samples, stats):
     ok_df, why = constructor_dataflow(mir)
     samples.append({'constructor_dataflow': why, 'ok': ok_df})
+    ctor_pending = None
     if not ok_df:
-        raise Inconclusive('constructor data flow: ' + why)
+        # a structural difference is a candidate only: the real constructor is run on the corpus x every operation code;
+        # a printer-uri that carries user-info / a query / another host, port or path is reported, nothing found => inconclusive
+        bad = confirm_constructor(binp, stats)
+        if bad:
+            b = bad[0]
+            out['violations'].append({'role': 'constructor', 'uri': b['input'], 'operation': b['op'],
+                                      'what': 'constructor data flow (%s); IppRequestResponse::new(op 0x%04x, %s) writes printer-uri %s (canonical form: %s); %d of %d corpus cases differ' % (
+                                          why, b['op'], b['input'], b['got'], b['want'], len(bad), stats.get('ctor_cases', 0)),
+                                      'replay_cmd': 'echo %r | %s --ctor' % (b['input'], binp)})
+        else:
+            ctor_pending = 'constructor data flow: ' + why + ' (no concrete leak on %d corpus cases)' % stats.get('ctor_cases', 0)
     it = Interp(mir, canon, closures)
     res = it.run([u])
     stats['functions'] = ['ipp::util::canonicalize_uri', 'ipp::util::canonicalize_uri::{closure#0}', 'ipp::request::IppRequestResponse::new (data-flow fact only)']
@@ -1099,6 +1166,8 @@ def run_c13(q, u, dom, canon, closures, mir, binp, out, samples, stats):
                 raise Inconclusive('an `unreachable` block is reachable in the model')
             continue
         okc, built, fallback = uri_of_result(val)
+        w, _ = q.check(label + ' reachable (vacuity witness)', dom + cond, z3.BoolVal(True))
+        stats['reachable_paths'] = stats.get('reachable_paths', 0) + (1 if w == 'sat' else 0)
         # (a) the fallback (input returned unchanged) must be unreachable for URIs of the domain
         v, m = q.check(label + ' fallback-unreachable', dom + cond, z3.Not(okc))
         samples.append({'path': i, 'obligation': 'fallback unreachable', 'calls': trace[:14], 'verdict': v})
@@ -1128,6 +1197,29 @@ def run_c13(q, u, dom, canon, closures, mir, binp, out, samples, stats):
             samples.append({'path': i, 'obligation': 'canonicalize(canonicalize(u)) == canonicalize(u), inner path %d' % j, 'verdict': v})
             if v == 'sat':
                 report_c13(m, u, binp, out, 'idempotence-path%d' % i, 'canonicalising the canonical URI changes it')
+    if ctor_pending:
+        raise Inconclusive(ctor_pending)
+
+
+def confirm_constructor(binp, stats):
+    r = subprocess.run([binp, '--ctor'], input='\n'.join(corpus(0)) + '\n', capture_output=True, text=True, timeout=300)
+    bad = []
+    n = 0
+    for l in r.stdout.splitlines():
+        if not l.strip():
+            continue
+        o = json.loads(l)
+        u, g = o['uri'], o['got_fields']
+        if u['scheme'] is None or u['authority'] is None:
+            continue
+        n += 1
+        if o['got'] is None:
+            continue  # no printer-uri written at all: nothing leaks; completeness of requests is C10's subject
+        if (g is None or g['scheme'] not in ('ipp', 'ipps') or '@' in (g['authority'] or '') or g['query'] is not None or '?' in o['got']
+                or g['host'] != u['host'] or g['port_u16'] != u['port_u16'] or g['path'] != (u['path'] or '/')):
+            bad.append(o)
+    stats['ctor_cases'] = n
+    return bad
 
 
 def report_c13(m, u, binp, out, role, what):
